@@ -395,6 +395,9 @@ def run(P, R, tier):
     clearvar_rule(P, R)
     savescope_rule(P, R)
     powsign_rule(P, R)
+    strval_rule(P, R)
+    strcopy_rule(P, R)
+    putkey_rule(P, R)
     onrecord_rule(P, R)
     R.undecided += ["(e) arithmetic and string results for all programs", "(f) malformed programs produce a BASIC error, never a wrong value or a hang"]
     ens = [e for e in P.enums.values() if e["q"].endswith("BASIC_TOKEN")]
@@ -816,3 +819,239 @@ def powsign_rule(P, R):
         else:
             R.violation(RULE, inst, "for exponent %d the sign of (negative base)^k is %s: `%s` is not the parity of k" % (kk, "flipped" if got else "not flipped", T.text(cond)[:50]),
                         file=f["file"], line=tests[0][1], function=f["q"])
+
+
+def _norm(n):
+    return "".join(T.text(n, -40).split())
+
+
+def strval_rule(P, R):
+    """"never a crash": a valrec with stringval == true is handed to strlen / strcpy / free by every consumer (LEN, +, =, PRINT, PUNCH,
+    assignment).  Every place that sets stringval = true must therefore, in the same statement sequence (switch case up to its break, or
+    block), give UU.sval a string on every path: a direct assignment of a non-null value, an if/else whose two branches both assign, or
+    an assignment of the whole record.  (NO_NEWLINE$ set the flag only: LEN(NO_NEWLINE$) dereferenced NULL.)"""
+    RULE = "C17.strval"
+    R.rule(RULE, "PBasic.cpp: every `x.stringval = true` is accompanied, in the same case / block, by an assignment of a string to x.UU.sval on every path", minimum=20)
+
+    def is_true(n):
+        n = T.strip_casts(n)
+        return T.is_node(n) and n[0] == "Lit" and str(n[3]) in ("true", "1")
+
+    def sets_flag(st):
+        return T.is_node(st) and st[0] == "Bin" and st[2] == "=" and _norm(st[3]).endswith(".stringval") and is_true(st[4])
+
+    def must_sval(st, var):
+        if not T.is_node(st):
+            return False
+        if st[0] == "Bin" and st[2] == "=":
+            t = _norm(st[3])
+            if t == var + ".UU.sval":
+                r = T.strip_casts(st[4])
+                return not (T.is_node(r) and r[0] == "Lit" and (r[2] == "null" or str(r[3]) == "0"))
+            return t == var
+        if st[0] == "Compound":
+            return any(must_sval(x, var) for x in st[2])
+        if st[0] == "If":
+            return st[4] is not None and must_sval(st[3], var) and must_sval(st[4], var)
+        if st[0] == "Case":
+            return must_sval(st[4], var)
+        return False
+    for f in sorted(P.functions.values(), key=lambda g: (g["file"], g["line"])):
+        if not f["file"].endswith("PBasic.cpp") or not f.get("body"):
+            continue
+        for c in T.walk(f["body"]):
+            if c[0] != "Compound":
+                continue
+            segs, seg = [], []
+            for st in c[2]:
+                while T.is_node(st) and st[0] == "Case":
+                    st = st[4]
+                seg.append(st)
+                if T.is_node(st) and st[0] == "Break":
+                    segs.append(seg)
+                    seg = []
+            segs.append(seg)
+            for seg in segs:
+                for st in seg:
+                    if not sets_flag(st):
+                        continue
+                    var = _norm(st[3])[:-len(".stringval")]
+                    inst = "%s@%d" % (f["q"].split("::")[-1], st[1] - f["line"])
+                    if any(must_sval(x, var) for x in seg):
+                        R.ok(RULE, inst, "%s.UU.sval assigned in the same sequence" % var)
+                    else:
+                        R.violation(RULE, inst, "%s.stringval is set to true but %s.UU.sval is not given a string on every path of the same case / block: the consumers "
+                                    "(strlen, strcpy, concatenation) dereference a null or stale pointer" % (var, var), file=f["file"], line=st[1], function=f["q"])
+
+
+STRCOPY_EXEMPT = {
+    # function: (destination text, reason)
+    "PBasic::parse": ("v.name", "token is cut at toklength characters by the tokenizer loop (`if (j < toklength)`) and varrec::name has toklength + 1 elements"),
+    "PBasic::stringfactor": ("Result", "the char* overload has no caller left (factor uses the std::string overload)"),
+    "PBasic::stringexpr": ("Result", "called by cmdrun / cmdload only, with the max_line input buffer or for commands that are rejected inside a stored program (C08.basicraw)"),
+    "PBasic::strinsert": ("dst", "p2c string library, not called from the interpreter"),
+}
+
+
+def strcopy_rule(P, R):
+    """"never a crash": string values are C strings in heap blocks; the translation from Pascal kept 256-character blocks as the default.
+    Census of every raw strcpy / strcat in PBasic.cpp whose source is not a literal: the destination block must be sized from the source
+    (the capacity expression, or the local it is computed in, takes strlen / size() of the source - and of the destination for strcat),
+    or the copy shrinks the destination's own content, or - for a caller-supplied buffer - the function bounds the source length against
+    MAX_LENGTH before the copy.  A literal-sized block that receives a computed string is the defect (GET$ of a 40960-character string,
+    STR$(1e300))."""
+    RULE = "C17.strcopy"
+    R.rule(RULE, "PBasic.cpp: every raw strcpy/strcat of a computed string goes into a block sized from that string (or a bounded / shrinking copy)", minimum=9)
+    ALLOC = ("PHRQ_calloc", "PHRQ_malloc", "PHRQ_realloc")
+    for q, (dst, why) in sorted(STRCOPY_EXEMPT.items()):
+        if q not in P.functions and not [g for g in P.functions.values() if g["q"] == q]:
+            R.anchor_missing(RULE, "exempt function %s not found" % q)
+    seen_exempt = set()
+    for f in sorted(P.functions.values(), key=lambda g: (g["file"], g["line"])):
+        if not f["file"].endswith("PBasic.cpp") or not f.get("body"):
+            continue
+        calls = [c for c in T.calls(f["body"]) if T.callee_name(c) in ("strcpy", "strcat", "sprintf", "vsprintf")]
+        if not calls:
+            continue
+        assigns = [(w[1], w) for w in T.walk(f["body"]) if w[0] == "Bin" and w[2] == "="]
+        for c in calls:
+            name = T.callee_name(c)
+            a = T.call_args(c)
+            inst = "%s@%d:%s" % (f["q"].split("::")[-1], c[1] - f["line"], name)
+            if name in ("sprintf", "vsprintf"):
+                R.violation(RULE, inst, "unbounded %s into %s" % (name, T.text(a[0])), file=f["file"], line=c[1], function=f["q"])
+                continue
+            src = T.strip_casts(a[1])
+            if T.is_node(src) and src[0] == "Lit":
+                continue
+            dst_t, src_t = _norm(a[0]), _norm(a[1])
+            ex = STRCOPY_EXEMPT.get(f["q"])
+            if ex and ex[0] == dst_t:
+                seen_exempt.add(f["q"])
+                R.ok(RULE, inst, "exempt: " + ex[1])
+                continue
+            # the latest allocation of the destination before the copy
+            alloc = None
+            for line, w in assigns:
+                if line <= c[1] and _norm(w[3]) == dst_t:
+                    al = [k for k in T.calls(w[4]) if T.callee_name(k) in ALLOC]
+                    if al and (alloc is None or line >= alloc[0]):
+                        alloc = (line, al[0])
+            need = [src_t] + ([dst_t] if name == "strcat" else [])
+
+            def measures(expr_text, what):
+                if "strlen(%s)" % what in expr_text:
+                    return True
+                if what.endswith(".c_str()"):
+                    obj = what[:-len(".c_str()")]
+                    return obj + ".size()" in expr_text or obj + ".length()" in expr_text
+                return False
+            if alloc is not None:
+                aa = T.call_args(alloc[1])
+                cap = aa[1] if T.callee_name(alloc[1]) == "PHRQ_realloc" else aa[0]
+                texts = [_norm(cap)]
+                names = {x[3] for x in T.walk(cap) if x[0] == "Ref" and x[2] == "local"} if T.is_node(cap) else set()
+                for line, w in assigns:
+                    if alloc[0] - 40 <= line <= alloc[0]:
+                        l = T.strip_casts(w[3])
+                        if T.is_node(l) and l[0] == "Ref" and l[3] in names:
+                            texts.append(_norm(w[4]))
+                for x in T.walk(f["body"]):     # declarations with initialiser, compound += in the same window
+                    if x[0] == "Decl" and alloc[0] - 40 <= x[1] <= alloc[0]:
+                        for d in x[2]:
+                            if d[0] in names and d[2] is not None:
+                                texts.append(_norm(d[2]))
+                    if x[0] == "Bin" and x[2] == "+=" and alloc[0] - 40 <= x[1] <= alloc[0]:
+                        l = T.strip_casts(x[3])
+                        if T.is_node(l) and l[0] == "Ref" and l[3] in names:
+                            texts.append(_norm(x[4]))
+                joined = " ".join(texts)
+                missing = [w for w in need if not measures(joined, w)]
+                if not missing:
+                    R.ok(RULE, inst, "block allocated at line %d with capacity `%s` computed from the copied string" % (alloc[0], T.text(cap)[:40]))
+                    continue
+                # a shrinking copy: the source is a std::string initialised from the destination and only cut since
+                if src_t.endswith(".c_str()"):
+                    obj = src_t[:-len(".c_str()")]
+                    init = [d for x in T.walk(f["body"]) if x[0] == "Decl" and x[1] <= c[1] for d in x[2] if d[0] == obj and d[2] is not None and dst_t in _norm(d[2])]
+                    later = [w for t, how, line, w in T.writes(f["body"]) if _norm(t) == obj and init and c[1] - 15 <= line <= c[1]]
+                    if init and all(any(m in _norm(w) for m in (".substr(", ".clear()")) for w in later):
+                        R.ok(RULE, inst, "shrinking copy: %s is the destination's own text, only cut by substr / clear" % obj)
+                        continue
+                R.violation(RULE, inst, "%s(%s, %s): the destination block (line %d) has capacity `%s`, which does not depend on the length of %s - a longer string "
+                            "overflows it" % (name, T.text(a[0]), T.text(a[1])[:40], alloc[0], T.text(cap)[:30], " / ".join(missing)), file=f["file"], line=c[1], function=f["q"])
+                continue
+            # a shrinking copy without local allocation (the block came with the evaluated operand)
+            if src_t.endswith(".c_str()"):
+                obj = src_t[:-len(".c_str()")]
+                init = [d for x in T.walk(f["body"]) if x[0] == "Decl" and c[1] - 15 <= x[1] <= c[1] for d in x[2] if d[0] == obj and d[2] is not None and dst_t in _norm(d[2])]
+                later = [w for t, how, line, w in T.writes(f["body"]) if _norm(t) == obj and c[1] - 15 <= line <= c[1]]
+                if init and all(any(m in _norm(w) for m in (".substr(", ".clear()")) for w in later):
+                    R.ok(RULE, inst, "shrinking copy: %s is the destination's own text, only cut by substr / clear" % obj)
+                    continue
+            # caller-supplied buffer: the source must be bounded against MAX_LENGTH before the copy
+            params = {p_[0] for p_ in f.get("params", [])} if f.get("params") else set()
+            bounded = False
+            for x in T.walk(f["body"]):
+                if x[0] == "If" and x[1] < c[1] and "strlen(%s)" % src_t in _norm(x[2]) and any(T.callee_name(k) == "snprintf" and _norm(T.call_args(k)[0]) == src_t
+                                                                                             for k in T.calls(x[3])):
+                    bounded = True
+            if bounded:
+                R.ok(RULE, inst, "caller's buffer: a text of MAX_LENGTH characters or more is re-formatted (bounded format) before the copy")
+                continue
+            R.violation(RULE, inst, "%s(%s, %s): the destination is not allocated here and the length of the source is not bounded before the copy"
+                        % (name, T.text(a[0]), T.text(a[1])[:40]), file=f["file"], line=c[1], function=f["q"])
+    for q in STRCOPY_EXEMPT:
+        if q not in seen_exempt:
+            R.anchor_missing(RULE, "exemption for %s matched no call" % q)
+
+
+def putkey_rule(P, R):
+    """PUT / PUT$ store under a key that is the text of the subscripts ("3,4,"), GET / GET$ / EXISTS look the same text up.  Writer and
+    readers agree only if each subscript is held, between intexpr and the stream, in the type intexpr returns: PUT kept it in an int while
+    GET used a long, so PUT(5, 3000000000) was stored as "-1294967296," and never found."""
+    RULE = "C17.putkey"
+    R.rule(RULE, "PUT/GET key builders: a subscript streamed into the key text is held in the type intexpr returns (no narrowing on one side only)", minimum=8)
+    ie = P.one("PBasic::intexpr")
+    ret = None
+    for f in P.functions.values():
+        for c in T.calls(f.get("body")):
+            if T.callee_q(c) == "PBasic::intexpr":
+                ret = c[2].get("ret")
+                break
+        if ret:
+            break
+    if not ret:
+        R.anchor_missing(RULE, "no call of PBasic::intexpr found")
+        return
+    n_writer = n_reader = 0
+    for f in sorted(P.functions.values(), key=lambda g: (g["file"], g["line"])):
+        if not f["file"].endswith("PBasic.cpp") or not f.get("body"):
+            continue
+        streamed = set()
+        for c in T.calls(f["body"]):
+            if T.callee_name(c) == "operator<<" and len(c[4]) == 2:
+                root = c[4][0]
+                while T.is_node(root) and root[0] == "Call" and T.callee_name(root) == "operator<<":
+                    root = root[4][0]
+                if T.is_node(root) and root[0] == "Ref" and "ostringstream" in str(root[4]):
+                    r = T.strip_casts(c[4][1])
+                    if T.is_node(r) and r[0] == "Ref" and r[2] == "local":
+                        streamed.add(r[3])
+        for w in T.walk(f["body"]):
+            if w[0] == "Bin" and w[2] == "=":
+                r = T.strip_casts(w[4])
+                l = T.strip_casts(w[3])
+                if T.is_node(r) and r[0] == "Call" and T.callee_q(r) == "PBasic::intexpr" and T.is_node(l) and l[0] == "Ref" and l[3] in streamed:
+                    inst = "%s@%d:%s" % (f["q"].split("::")[-1], w[1] - f["line"], l[3])
+                    if f["q"].endswith("factor"):
+                        n_reader += 1
+                    else:
+                        n_writer += 1
+                    if l[4] == ret and r is w[4]:
+                        R.ok(RULE, inst, "held in %s" % ret)
+                    else:
+                        R.violation(RULE, inst, "the subscript is held in `%s` (intexpr returns %s) before it is written into the key text: writer and reader build different "
+                                    "keys for values outside that type" % (l[4], ret), file=f["file"], line=w[1], function=f["q"])
+    if not n_writer or not n_reader:
+        R.anchor_missing(RULE, "key builders not found on both sides (writers %d, readers %d)" % (n_writer, n_reader))
